@@ -22,8 +22,8 @@ def run(r):
     depth = 4 if r.tier == "thorough" else 3
     r.rule = (f"every instruction stream (main, each block; macro bodies are regions inside the main stream) of: all "
               f"fixture templates of /repo (tests/inputs, refs, every *.html/*.j2 that compiles), 4 multi-template sets, "
-              f"ALL chains of depth <= {depth} over 25 construct kinds x 8 innermost leaves (text, empty body, break, "
-              f"continue, loop(x), loop(x)|filter, run-time failure, failure in the iteration x == k) that are admissible, "
+              f"ALL chains of depth <= {depth} over 25 construct kinds x 9 innermost leaves (text, empty body, break, "
+              f"continue, loop(x), loop(x)|filter, run-time failure, failure in the iteration x == k, failing include) that are admissible, "
               f"plus a seeded sample of deeper chains; error recovery: macros, call-block callers and blocks invoked from "
               f"Rust functions (Value::call / State::render_block) that swallow the failure, with bodies failing after "
               f"opening with/for/capture/autoescape scopes, inside nested macro calls / includes and inside loops of the caller; "
